@@ -1,1 +1,21 @@
-# matchers for known_findings.jsonl (predicates over a vf.driver.Failure)
+"""Matchers for known_findings.jsonl: predicates over a vf.driver.Failure identifying the *specific* failing
+input / call site / history of a recorded finding.  A failure that no matcher accepts is reported as a VIOLATION."""
+from __future__ import annotations
+
+
+def _case(f):
+    c = f.case or {}
+    return c.get("case", c)
+
+
+def f10c_product_left_dims_none_right_zipped(f) -> bool:
+    """Sweep.product: receiver has dims=None, another operand has a zipped group -> the zip is lost."""
+    if f.check != "sweep-product-add":
+        return False
+    c = _case(f)
+    if c.get("kind") != "product" or "product-differs" not in str(f.what):
+        return False
+    ops = c.get("ops") or []
+    if not ops or ops[0].get("dims") is not None:
+        return False
+    return any(isinstance(g, (list, tuple)) and len(g) >= 2 for o in ops[1:] for g in (o.get("dims") or []))
